@@ -2,7 +2,8 @@
 
 Node encoding (a tree of tuples, later flattened for Lean):
   ("meta", v, cond)      an Indent/Dedent/ImplicitIndent (v = +1/-1) — cond = 0 unconditional, else an id of the Conditional's config rule
-  ("seq", [nodes])       Sequence / Bracketed (the bracket's own Indent/Dedent pair cancels)
+  ("seq", [nodes])       Sequence / Bracketed (the bracket's own Indent/Dedent pair cancels; metas that are direct elements of a
+                         bracket's content are dropped, as Bracketed.match drops them — at any depth below the bracket, up to the next reference)
   ("alt", [nodes])       OneOf / AnyNumberOf(max_times=1) / OptionallyBracketed
   ("rep", [nodes])       AnyNumberOf with repetition, AnySetOf, Delimited (elements and delimiter)
   ("opt", node)          optional wrapper
@@ -15,9 +16,45 @@ Obligation per library entry: the set of possible net indent vectors of its skel
 from __future__ import annotations
 
 
+FIXED_CONDS = {(("indented_joins", True),): 1, (("indented_joins", False),): 2, (("indented_then", True),): 3}
+
+
+def convert_object(o):
+    """Skeleton of one grammar object with the fixed condition numbering used by the synthetic correspondence."""
+    return _converter(dict(FIXED_CONDS), [])(o)
+
+
 def skeletons(label):
     """-> (entries: {name: node}, conds: {cond_id: repr}, notes)"""
     from sqlfluff.core.dialects import dialect_selector
+    dialect = dialect_selector(label)
+    lib = dialect._library
+    conds = {}
+    notes = []
+    conv = _converter(conds, notes)
+    from sqlfluff.core.parser.segments.base import BaseSegment
+    entries = {}
+    for name, v in lib.items():
+        if isinstance(v, type) and issubclass(v, BaseSegment):
+            mg = getattr(v, "match_grammar", None)
+            entries[name] = conv(mg) if mg is not None else ("leaf",)
+        else:
+            entries[name] = conv(v)
+    return entries, {v: repr(k) for k, v in conds.items()}, notes
+
+
+def strip_metas(n):
+    t = n[0]
+    if t == "meta":
+        return ("leaf",)
+    if t == "opt":
+        return ("opt", strip_metas(n[1]))
+    if t in ("seq", "alt", "rep"):
+        return (t, [strip_metas(e) for e in n[1]])
+    return n
+
+
+def _converter(conds, notes):
     from sqlfluff.core.parser.grammar.base import BaseGrammar, Ref, Anything, Nothing
     from sqlfluff.core.parser.grammar.sequence import Sequence, Bracketed
     from sqlfluff.core.parser.grammar.anyof import AnyNumberOf, OneOf, OptionallyBracketed, AnySetOf
@@ -25,11 +62,6 @@ def skeletons(label):
     from sqlfluff.core.parser.grammar.conditional import Conditional
     from sqlfluff.core.parser.segments.base import BaseSegment
     from sqlfluff.core.parser.segments.meta import Indent, MetaSegment
-
-    dialect = dialect_selector(label)
-    lib = dialect._library
-    conds = {}
-    notes = []
 
     def cond_id(rules):
         key = tuple(sorted(rules.items()))
@@ -72,7 +104,12 @@ def skeletons(label):
             if o.min_times == 0:
                 n = ("opt", n)
             return opt(o, n)
-        if isinstance(o, Sequence):      # incl. Bracketed
+        if isinstance(o, Bracketed):
+            # Bracketed.match keeps only the *child matches* of its content match, and Sequence/OneOf/Delimited merge the inserts
+            # of unclassed sub-matches into their own: every meta inside the bracket that is not inside a classed segment
+            # (a `ref`) is dropped by the engine. The bracket's own Indent/Dedent pair cancels.
+            return opt(o, ("seq", [strip_metas(conv(e, depth + 1)) for e in o._elements]))
+        if isinstance(o, Sequence):
             return opt(o, ("seq", [conv(e, depth + 1) for e in o._elements]))
         if isinstance(o, BaseGrammar):
             els = getattr(o, "_elements", None)
@@ -82,14 +119,7 @@ def skeletons(label):
             return ("leaf",)
         return ("leaf",)              # parsers
 
-    entries = {}
-    for name, v in lib.items():
-        if isinstance(v, type) and issubclass(v, BaseSegment):
-            mg = getattr(v, "match_grammar", None)
-            entries[name] = conv(mg) if mg is not None else ("leaf",)
-        else:
-            entries[name] = conv(v)
-    return entries, {v: repr(k) for k, v in conds.items()}, notes
+    return conv
 
 
 ZERO = ()
